@@ -32,6 +32,22 @@ pub(crate) fn set_current(prop: &str, engine: &str, sub: &str, case_json: &str) 
     });
 }
 
+/// Registers a complete replay file body (already serialised) for the calling thread; the
+/// clause/signature/detail fields are replaced by those of a crash report.
+pub(crate) fn set_current_body(body: &str) {
+    BODY.with(|b| {
+        let mut b = b.borrow_mut();
+        b.clear();
+        b.push_str(&body.replacen("\"clause\":\"stalled\"", "\"clause\":\"crash\"", 1).replacen(
+            "no case evaluation finished while this case was in flight",
+            "the harness process received a fatal signal (SIGSEGV/SIGBUS/SIGILL/SIGABRT, e.g. an abort on a panic inside a destructor) while evaluating this case",
+            1,
+        ));
+        b.push('\n');
+        CUR.with(|c| c.set((b.as_ptr() as usize, b.len())));
+    });
+}
+
 pub(crate) fn current() -> (usize, usize) {
     CUR.with(|c| c.get())
 }
@@ -80,7 +96,7 @@ extern "C" fn handler(sig: libc::c_int) {
 pub(crate) fn install(prop: &str) {
     #[cfg(not(miri))]
     unsafe {
-        let dir = format!("{}/failures", crate::runner::verif_dir());
+        let dir = format!("{}/failures", std::env::var("VERIF_DIR").unwrap_or_else(|_| "/verif".to_string()));
         let _ = std::fs::create_dir_all(&dir);
         let path = format!("{}/{}-crash-{}.json", dir, prop, std::process::id());
         let line = format!("VIOLATION property={} replay={}\n", prop, path);
